@@ -14,9 +14,19 @@ returns a value it is the true residue - for EVERY base, exponent (>= 1) and mod
 in the generated BB/Generated/NumTables.lean.  The rest of the algebra - simplification of
 Add/Mul/Div/Exp trees - is validated per answer, not proved: see DESIGN.md.)
 
+Second part (namespace BB.NumModTree, at the end of this file): the WHOLE `%` operator - `a % m` for
+an arbitrary expression tree `a`: `int.__mod__`, `Add.__mod__`, `Mul.__mod__`, `Div.__mod__`,
+`Exp.__mod__` with an integer or a symbolic (tree) exponent, `find_period`,
+`exp_mod_special_cases` with its literal tables.  `BB.NumModTree.modE` (BB/Model/NumModTree.lean)
+is that operator branch for branch; it is tied to the real code on every run by the `nummod`
+correspondence of C18 (every `a % m` the harness executes: the real outcome, value or exception,
+against the compiled model).  `modE_correct_partial` says that whatever it returns is the residue
+of the tree's value - for EVERY tree and modulus, no depth bound.
+
 Property theorems only; helper lemmas live in BB/Lemmas/NumMod.lean.
 -/
 import BB.Lemmas.NumMod
+import BB.Lemmas.NumModTree
 
 namespace BB.NumMod
 
@@ -87,3 +97,78 @@ example : findPeriod 10 7 = some 6 := by decide
 example : expModInt 6 5 3 = none := by decide                     -- `assert base % mod != 0` fails: the Python raises
 
 end BB.NumMod
+
+/-! ## The whole `%` operator on expression trees -/
+
+namespace BB.NumModTree
+
+open BB.NumEval
+
+/-- **modE_correct_partial.**  Whatever `a % m` returns is the residue of the value of `a`: for
+    every expression tree `e` (any nesting of `Add`, `Mul`, `Div`, `Exp`, also inside exponents),
+    every modulus `m > 0`, if the model of the operator returns `r` and the tree has the integer
+    value `v` (`eval`: divisions exact, exponents non-negative) then `r = v % m`.
+
+    The hypothesis `expsOk e` is forced (see the two counterexamples): every `Exp` node must have
+    an exponent `≥ 1` if the exponent is an integer, and of value `≥ 2` if it is a tree.
+    * integer exponent: the three early returns of `Exp.__mod__` (`mod == 1`, `mod == base`,
+      `mod == 2`) come before `assert 1 < exp` and two of them are wrong for exponent 0;
+    * tree exponent: `assert 1 < exp` is `Num.__gt__`, a sign heuristic (`negH`: an `Exp` is never
+      `< k`, an `Add` with an integer left operand is `< k` iff its right operand is, ...) that
+      never looks at the magnitude, so an exponent tree of value `≤ 1` passes it and the literal
+      special case `2 ** exp % 4 = 0` is wrong for value 1.
+    No other hypothesis: no bound on depth or size, any sign of `base` and of the integer leaves;
+    an inexact `Div`, a `Div` with `den ≤ 0`, a negative exponent have no `eval` or make the model
+    raise.
+
+    Original statement (FALSE, e.g. `Exp(3, 0) % 3`, `Exp(2, -1 + Exp(2, 1)) % 4`):
+
+      theorem modE_correct (e : NExpr) (m : Nat) (r v : Int) (h : modE e m = some r)
+          (hv : eval e = some v) (hm : 0 < m) : r = v % m -/
+theorem modE_correct_partial (e : NExpr) (m : Nat) (r v : Int) (hwf : expsOk e = true)
+    (h : modE e m = some r) (hv : eval e = some v) (hm : 0 < m) : r = v % (m : Int) :=
+  modE_correct' e m r v hwf h hv hm
+
+/-- **modE_correct_counterexample.**  Without `expsOk` the statement fails on a symbolic exponent
+    of value 1 that passes the sign heuristic of `assert 1 < exp`:
+    `Exp(2, Add(-1, Exp(2, 1))) % 4` - the model (and the Python) return 0 by the literal case
+    `base 2, mod 4`, the value is `2 ^ (-1 + 2) = 2`, `2 % 4 = 2`. -/
+theorem modE_correct_counterexample :
+    ¬ (∀ (e : NExpr) (m : Nat) (r v : Int), modE e m = some r → eval e = some v → 0 < m →
+        r = v % (m : Int)) := by
+  intro h
+  exact absurd (h (.exp 2 (.add (.int (-1)) (.exp 2 (.int 1)))) 4 0 2 (by decide) (by decide)
+    (by decide)) (by decide)
+
+/-- second witness, an integer exponent 0 through the `mod == base` return:
+    `Exp(3, 0) % 3` gives 0, the value is 1 -/
+theorem modE_correct_counterexample2 :
+    modE (.exp 3 (.int 0)) 3 = some 0 ∧ eval (.exp 3 (.int 0)) = some 1 ∧
+      (0 : Int) ≠ 1 % ((3 : Nat) : Int) := by decide
+
+/-- **modE_defined_simple.**  A definedness statement for the simple trees: on sums and products
+    of integers and of powers `base ** k` with `base ≥ 0`, an integer exponent `k ≥ 2` and
+    `base % m ≠ 0` (`simpleOk m e`), the operator never raises for `1 ≤ m < 2^24`.  (Outside this
+    class it raises by design: `PeriodLimit` for `m ≥ 2^24`, `assert base % mod != 0`,
+    `ModDepthLimit` / `assert rem == 0` in `Div`, `ExpModLimit` and the comparison heuristic for
+    symbolic exponents.) -/
+theorem modE_defined_simple (e : NExpr) (m : Nat) (hm : 1 ≤ m) (hlim : m < 2 ^ 24)
+    (hs : simpleOk m e = true) : (modE e m).isSome = true :=
+  modE_defined_simple' e m hm hlim hs
+
+/-! ### Non-vacuity (concrete trees; `decide`) -/
+
+-- `(2 ** (1 + 3 ** 4)) % 54`: symbolic exponent 82, `find_period` skipped (mod = 2 * 3^3), the
+-- literal table of `exp_mod_special_cases` at `82 % 18 = 10`
+example : modE (.exp 2 (.add (.int 1) (.exp 3 (.int 4)))) 54 = some 52 := by decide +kernel
+example : expsOk (.exp 2 (.add (.int 1) (.exp 3 (.int 4)))) = true := by decide
+-- `(1 + 3 ** 2) // 4`: an inexact `Div` raises (`assert rem == 0`)
+example : modE (.div (.add (.int 1) (.exp 3 (.int 2))) 4) 5 = none := by decide +kernel
+-- `((2 + 7 ** 3) // 5 * 3 ** (2 ** 5)) % 1000`
+example : modE (.mul (.div (.add (.int 2) (.exp 7 (.int 3))) 5) (.exp 3 (.exp 2 (.int 5)))) 1000
+    = some 29 := by decide +kernel
+-- a negative exponent tree fails `assert 1 < exp`
+example : modE (.exp 5 (.mul (.int (-2)) (.exp 2 (.int 3)))) 7 = none := by decide +kernel
+example : simpleOk 1000 (.add (.int (-7)) (.mul (.int 12) (.exp 3 (.int 40)))) = true := by decide
+
+end BB.NumModTree
